@@ -635,6 +635,14 @@ func ruleP04Steps(p *Prog, r *Report) {
 						if c == nil && switchCell == nil {
 							same = true // both are the SSA value itself (checked by isCmdTime)
 						}
+						if !same && c != nil && switchCell != nil {
+							// each step built by its own constructor, which captures its own
+							// parameter: the same when both were handed the same value
+							a, b := storesTo(c), storesTo(switchCell)
+							if len(a) == 1 && len(b) == 1 && (strip(a[0].val) == strip(b[0].val) || sameValue(a[0].val, b[0].val)) {
+								same = true
+							}
+						}
 						r.check(same && len(storesToExcludingInit(c, atTime)) == 0, rule, key+":same-time", p.instrPos(rc.call), "switch starts the new range at the very time it closed the old one", "switch does not start the new range with the same, unmodified time value it closed the old one with")
 					}
 				case name == "Stop" || (name == "Switch" && si == 0):
